@@ -60,12 +60,34 @@ def _iov(pid, title, theorems, modules, vtags, obs, text, partial=""):
         assumptions=["single-threaded histories", "caller buffers outlive the iovec (the borrow checker's job)"],
     )
 
-_iov("C03", "OwningIovec is a faithful FIFO byte pipe", [], [], ["C03"], ["A", "R"],
-     "Kernel-checked refinement of the structural OwningIovec model to an abstract byte pipe (theorem list in tools/specs.py); "
-     "correspondence of the model with the real crate over random histories of the full producer/consumer API; shadow-buffer oracle.")
-_iov("C04", "Pending backpatches are never observable; filled ones unblock everything", [], [], ["C04"], ["A", "R"],
-     "Kernel-checked theorems on the structural model: the stable prefix never contains a pending placeholder or later bytes; "
-     "ok-iff-no-pending; all-filled unblocks; correspondence + shadow-buffer oracle with placeholders.")
+_iov("C03", "OwningIovec is a faithful FIFO byte pipe",
+     ["Woodpile.Props.C03.op_refines", "Woodpile.Props.C03.reachable_refines", "Woodpile.Props.C03.fifo",
+      "Woodpile.Props.C03.size_eq", "Woodpile.Props.C03.consume_reports", "Woodpile.Props.C03.consume_exact",
+      "Woodpile.Props.C03.no_empty_slice", "Woodpile.Props.C03.no_panic_valid", "Woodpile.Props.C03.bad_token_panics"],
+     ["Woodpile.Props.C03"], ["C03"], ["A", "R"],
+     "Kernel-checked refinement of the structural OwningIovec model (Woodpile.Iovec) to the abstract byte pipe (Woodpile.Pipe) for every "
+     "history of one iovec over push / push_copy / push_borrowed / extend / register_patch / backfill_or_panic (arbitrary tokens) / clear / "
+     "arena flush+reserve / consume / pop_front / advance_slices / Read, any policy and tuning constants: per-op refinement under an "
+     "inductive invariant (A.2 items 1-4, 6, 7), lifted to histories; FIFO ledger equation (consumed ++ stable ++ hidden cells = everything "
+     "appended since the last clear with filled placeholders in place), total_size bookkeeping, exact consumer return values, no empty slice, "
+     "and an exact characterisation of panics (pop on an empty stable prefix; stale / foreign / wrong-size backfill token). "
+     "Correspondence of the model with the real crate over enumerated + random histories of the full producer/consumer API; shadow-buffer oracle.",
+     " C03/C04 theorems cover single-iovec histories; clone / take / arena swap / foreign anchored slices are exercised by the "
+     "correspondence run and the per-object shadow oracle only (the multi-object frame theorem is C20's).")
+_iov("C04", "Pending backpatches are never observable; filled ones unblock everything",
+     ["Woodpile.Props.C04.stable_prefix_has_no_hole", "Woodpile.Props.C04.stable_is_prefix_before_first_hole",
+      "Woodpile.Props.C04.observed_bytes_immutable", "Woodpile.Props.C04.stable_slices_never_overwritten",
+      "Woodpile.Props.C04.ok_iff_no_pending",
+      "Woodpile.Props.C04.all_filled_unblocks"],
+     ["Woodpile.Props.C04"], ["C04"], ["A", "R"],
+     "Kernel-checked theorems on the structural model, for every history of one iovec (same vocabulary as C03): the stable prefix - from which "
+     "every consumer-side view is computed - consists of byte cells only and is a prefix of the bytes before the first pending placeholder; "
+     "a byte cell of the pipe (in particular every consumed or visible byte) never changes value or position until clear; "
+     "has_pending_backrefs (iovs / flatten / stable_consumer Ok) is false exactly when no hole cell is left; with nothing pending the stable "
+     "prefix is the whole content and consumed ++ visible equals everything appended with the backfilled values, for fills in any order. "
+     "Correspondence + shadow-buffer oracle with placeholders.",
+     " C03/C04 theorems cover single-iovec histories; clone / take / arena swap / foreign anchored slices are exercised by the "
+     "correspondence run and the per-object shadow oracle only (the multi-object frame theorem is C20's).")
 _iov("C05", "Every slice handed out points into live memory", [], [], ["C05"], ["A", "S", "T", "L", "R"],
      "Kernel-checked ownership invariant on the structural model (every exposed owned slice is guarded by an anchor holding its chunk; "
      "derived liveness); correspondence of slice placement and live-chunk set with the real allocator through hook H1; containment oracle.",
